@@ -126,3 +126,87 @@ SLOTS = {
     "append": ["existing", "new"],
 }
 OUT = {"term": "o", "ident": "o", "add": "o", "lt": "o", "if": "truth", "append": "o"}
+
+
+# ---- building a hand-wired flow inside a workflow or inside a macro's graph creator ----------------
+
+CH = ["ran", "failed", "true", "false"]
+MACRO_SPEC: list = []  # the case the next FlowMacro* construction builds
+BUILT: dict = {}
+
+
+def build_flow(owner, case, ui=None):
+    """children n0.. of `owner`, their data connections, their signal connections (every sugar form) and the
+    starting nodes, exactly in the order the case lists them; `ui` is the macro's UI node (child number
+    len(nodes)) when the host is a macro with an input"""
+    ns = []
+    for i, nd in enumerate(case["nodes"]):
+        kw = {}
+        for lab, tok in zip(SLOTS[nd["kind"]], nd["own"]):
+            kw[lab] = _tok(tok)
+        n = KINDS[nd["kind"]](label=f"n{i}", tag=i, **kw)
+        n.use_cache = bool(nd["cache"])
+        n.recovery = None
+        if nd.get("fail"):
+            FAIL[i] = set(nd["fail"])
+        owner.add_child(n)
+        ns.append(n)
+    for dst, slot, src in case["data"]:
+        lab = SLOTS[case["nodes"][dst]["kind"]][slot]
+        out = ui.outputs.user_input if src == len(ns) else ns[src].outputs[OUT[case["nodes"][src]["kind"]]]
+        ns[dst].inputs[lab].connect(out)
+    for src, c, dst, acc, via in case["sig"]:
+        sig = ns[src].signals.output[CH[c]]
+        recv = ns[dst].signals.input.accumulate_and_run if acc else ns[dst].signals.input.run
+        if via == "connect":
+            recv.connect(sig)
+        elif via == "sconnect":
+            sig.connect(recv)
+        elif via == "rshift":
+            if c == 0 and not acc:
+                ns[src] >> ns[dst]
+            else:
+                sig >> recv
+        elif via == "lshift":
+            if not acc:
+                sig >> ns[dst]
+            elif c == 0:
+                ns[dst] << ns[src]
+            else:
+                ns[dst] << sig
+        else:
+            raise ValueError(via)
+    owner.starting_nodes = [ns[i] for i in case["starters"]]
+    return ns
+
+
+def _tok(tok):
+    if tok == "ND":
+        return NOT_DATA
+    if tok == "d":
+        return "d"
+    if tok == "N":
+        return None
+    if tok == "bT":
+        return True
+    if tok == "bF":
+        return False
+    if tok.startswith("n"):
+        return int(tok[1:])
+    raise ValueError(tok)
+
+
+@as_macro_node("o", validate_output_labels=False)
+def FlowMacro0(self):
+    case = MACRO_SPEC.pop(0)
+    ns = build_flow(self, case)
+    BUILT["ns"] = ns
+    return ns[0]
+
+
+@as_macro_node("o", validate_output_labels=False)
+def FlowMacro1(self, x="d"):
+    case = MACRO_SPEC.pop(0)
+    ns = build_flow(self, case, ui=x)
+    BUILT["ns"] = ns
+    return ns[0]
